@@ -218,7 +218,11 @@ func dischargeAll(res *FuncResult, dir string, timeoutS, seed, par int, modelVar
 		go func(o *Obligation, file string) {
 			defer wg.Done()
 			defer func() { <-sem }()
-			r := solve(file, timeoutS, seed)
+			tmo := timeoutS
+			if o.Vacuity && tmo > 3 {
+				tmo = 3
+			}
+			r := solve(file, tmo, seed)
 			o.Solver, o.Ms = r.solver, r.ms
 			o.Detail = file
 			if o.Vacuity {
